@@ -51,3 +51,23 @@ pub fn limit_address_space(bytes: u64) {
         setrlimit(RLIMIT_AS, &rl);
     }
 }
+
+const CLOCK_PROCESS_CPUTIME_ID: i32 = 2;
+
+pub fn process_cpu_ns() -> u64 {
+    let mut ts = Timespec { tv_sec: 0, tv_nsec: 0 };
+    unsafe {
+        clock_gettime(CLOCK_PROCESS_CPUTIME_ID, &mut ts);
+    }
+    ts.tv_sec as u64 * 1_000_000_000 + ts.tv_nsec as u64
+}
+
+/// Per-case CPU watchdog: allow `secs` more CPU seconds from now; when exceeded the kernel
+/// sends SIGXCPU, the worker dies and the driver attributes the death to the journalled case.
+pub fn arm_case_limit(secs: u64) {
+    let used = process_cpu_ns() / 1_000_000_000 + 1;
+    let rl = Rlimit { cur: used + secs, max: used + secs + 5 };
+    unsafe {
+        setrlimit(RLIMIT_CPU, &rl);
+    }
+}
